@@ -142,7 +142,8 @@ fn side_entries(side: u8, variant: u8) -> Vec<Spec> {
         // kilobytes, many rounds; pipes smaller than one frame make back-pressure real)
         let mut v = vec![];
         for i in 0..400u32 {
-            v.push(Spec::new(0, side, format!("s{side}-{i:04}").as_bytes(), 1 + (i % 3) as u64, Val::X));
+            // (time order is the reverse of key order: what arrives late in a session is old)
+            v.push(Spec::new(0, side, format!("s{side}-{i:04}").as_bytes(), 3 - (i * 3 / 400) as u64, Val::X));
         }
         for i in 0..50u32 {
             v.push(Spec::new(0, 0, format!("both-{i:04}").as_bytes(), 2, Val::Y));
